@@ -103,6 +103,26 @@ class DocmdHooks(QHooks):
             self.site('open-needs-non-empty-messid', x, first is not TOP and 0 not in first, 'empty messid reaches open_read', E)
         return [Outcome(ret=fs(('fd', x.id))), Outcome(ret=fs(-1))]
 
+    def prim_pipe(self, E, x, args):
+        v = args[0]
+        v = next(iter(v)) if v is not TOP and len(v) == 1 else None
+        if not (isinstance(v, tuple) and v[0] == '&'):
+            raise AnalysisBroken('spawn.c docmd: pipe() argument is not an array')
+        base = v[1][:-3] if v[1].endswith('[0]') else v[1]
+        return [Outcome(ret=fs(-1)), Outcome(ret=fs(0), sets={base + '[0]': fs(('fd', 'pipe-read')), base + '[1]': fs(('fd', 'pipe-write'))})]
+
+    def prim_close(self, E, x, args):
+        v = args[0]
+        v = next(iter(v)) if v is not TOP and len(v) == 1 else None
+        if v == ('fd', 'pipe-write'):
+            E.set('$wclosed', fs(1))
+        if v == ('fd', 'pipe-read'):
+            E.set('$rclosed', fs(1))
+        return [Outcome(ret=TOP)]
+
+    def prim_coe(self, E, x, args):
+        return [Outcome(ret=TOP)]
+
     def prim_spawn(self, E, x, args):
         self.spawns += 1
         st = self.g(E, '$st', None)
@@ -124,6 +144,18 @@ class DocmdHooks(QHooks):
         e, u = self.g(E, '$err'), self.g(E, '$used')
         self.site('one-err-or-slot-used-per-command', None, (e == 1 and u == 0) or (e == 0 and u == 1),
                   'docmd() returns with %d error report(s) and slot-used=%d' % (e, u), E)
+        if e == 0 and u == 1:
+            import re
+            outs = {k: v for k, v in E.store.items() if re.match(r'^G:d\[\d+\]\.fd(in|out)$', k)}
+            fin = [v for k, v in outs.items() if k.endswith('.fdin')]
+            fout = [v for k, v in outs.items() if k.endswith('.fdout')]
+            okp = self.g(E, '$wclosed', 0) == 0 and self.g(E, '$rclosed', 0) == 0 and fin == [fs(('fd', 'pipe-read'))] and fout == [fs(('fd', 'pipe-write'))]
+            self.site('parent-keeps-both-ends-of-the-report-pipe-until-the-child-is-reaped', None, okp,
+                      'a delivery was started and docmd() returns with the write end closed=%s, the read end closed=%s, slot fdin=%s fdout=%s: if the parent holds no write end, end-of-file from the child can be seen before its exit status was stored, and the report is judged with the status of the previous delivery in that slot' %
+                      (self.g(E, '$wclosed', 0), self.g(E, '$rclosed', 0), [sorted(v) if v is not TOP else '?' for v in fin], [sorted(v) if v is not TOP else '?' for v in fout]), E)
+        elif e == 1:
+            # a refused command must not leak the pipe
+            pass
 
 
 def guard_has(fn, x, pred):
@@ -136,11 +168,9 @@ def guard_has(fn, x, pred):
     return False
 
 
-def run(ctx):
-    db, rep = ctx.db, ctx.report
+def docmd_explore(db, rep):
     prog = db.program('qmail-rspawn')
     docmd = prog.fn('docmd', 'spawn.c')
-    r3 = rep.rule('C18.3-spawn-docmd', 'R-TYPESTATE', 'spawn.c: only validated numeric message ids are opened; spawn() needs a regular file owned by qmailq; slot index in range; one report or one slot per command')
     H = DocmdHooks()
     total_states = 0
     for n in LENS:
@@ -150,6 +180,16 @@ def run(ctx):
         rep.count_states(eng.states, eng.transitions)
     if H.opens == 0 or H.returns == 0:
         raise AnalysisBroken('spawn.c docmd: open_read/return not reached')
+    return H, total_states
+
+
+
+def run(ctx):
+    db, rep = ctx.db, ctx.report
+    prog = db.program('qmail-rspawn')
+    docmd = prog.fn('docmd', 'spawn.c')
+    r3 = rep.rule('C18.3-spawn-docmd', 'R-TYPESTATE', 'spawn.c: only validated numeric message ids are opened; spawn() needs a regular file owned by qmailq; slot index in range; one report or one slot per command')
+    H, total_states = docmd_explore(db, rep)
     for inst, (ok, where, detail, path) in sorted(H.sites.items()):
         r3.check(ok, inst, where, detail, path)
     r3.note(messid_lengths_explored=LENS, abstract_states=total_states)
